@@ -229,7 +229,7 @@ claim("C14",
       "objects, and every encode in it must equal (sha1 / exception class) the same document encoded alone in a fresh "
       "interpreter (two hash seeds); the context observed by a recorder must equal the model's run; the caller's DataFrames "
       "must be equal before and after.",
-      "Object aliasing between documents and StrategyRegistry are not in the Gallina model (history runs only); pool of 15 documents.",
+      "Object aliasing between documents and StrategyRegistry are not in the Gallina model (history runs only); pool of 18 documents.",
       "Rocq proof (induction over histories of a state-machine model of the colour context) + fresh-interpreter history runs "
       "compared with a subprocess baseline and with the model's context trace",
       "DESIGN.md section 6 C14")
